@@ -37,6 +37,7 @@ func s1Table() []GuardRow {
 	return []GuardRow{
 		{Pkg: pkgLctx, Struct: "memoryState", Fields: []string{"contextMemory"}, Mutex: "mutex", MinSites: 12, Only: atomicOnly},
 		{Pkg: pkgLctx, Struct: "memoryState", Fields: []string{"clock"}, Mutex: "mutex", MinSites: 4},
+		{Pkg: "lunar/engine/metrics", Struct: "LabeledEndpointManager", Fields: []string{"supportedLabelPatterns"}, Mutex: "mu", MinSites: 2},
 		{Pkg: pkgQuota, Struct: "quota", Fields: []string{"allowedByReqID", "windowStart"}, Mutex: "mutex", MinSites: 9},
 		{Pkg: pkgQuota, Struct: "fixedWindow", Fields: []string{"quotaGroups"}, Mutex: "getQuotaLock", MinSites: 5},
 		{Pkg: pkgQuota, Struct: "concurrentStrategy", Fields: []string{"allowedReq"}, Mutex: "mutex", MinSites: 6},
@@ -67,6 +68,9 @@ func runC18(w *World, r *Report) {
 	la := NewLockAn(w)
 	checkGB(w, r, la, "R1", s1Table())
 	hrLockOwnersUsePointerReceivers(w, r, "R1", "lunar/")
+	hrAllLocksReleased(w, r, la, "R1", "lunar/")
+	// the response cache's size re-check reads the live fields under the lock (C12.R5)
+	r.Borrow(w, runC12, map[string]string{"R5": "R1"})
 	hrVacuumStartOnce(w, r, la, "R1")
 	hrVersionBumpReturnsPrevious(w, r, "R1")
 	for _, p := range []struct{ pkg, fn, mp, lock string }{
